@@ -627,6 +627,7 @@ class SingleAdapter(Adapter, ABC):
             back_adapter,
             front_adapter,
             internal,
+            self.indels,
         )
         if self._debug:
             print(kmer_probability_analysis(positions_and_kmers))
